@@ -219,3 +219,37 @@ def run(repo, rep, tier):  # noqa: F811 -- round-6 remedies (core/round6.py)
 _ADDR6C = '  Borrowed: R13.13.'
 EXPLANATION += _ADDR6C
 LEVEL_TEXT += _ADDR6C
+
+
+_run_before_r7df = run
+
+
+def run(repo, rep, tier):  # noqa: F811 -- round 7: CodeBuilder.dataclass_fields evaluated on inheritance shapes (typepreds.py)
+    _run_before_r7df(repo, rep, tier)
+    if getattr(rep, "borrowed", False):
+        return
+    from ..core import typepreds as _tp7df
+    _tp7df.builder_method_cases(repo, rep, "R07.9")
+
+
+_ADDR7DF = (" R07.9: CodeBuilder.dataclass_fields is interpreted from its own source (type-level evaluator, stub builder) on six inheritance shapes "
+            "-- two dataclass bases, an own Field, a bare re-annotation, a finished dataclass, a diamond, no ancestor -- and must return, per "
+            "name, the Field object of the nearest declaring ancestor, as dataclasses itself does.")
+EXPLANATION += _ADDR7DF
+LEVEL_TEXT += _ADDR7DF
+
+
+_run_before_r7a = run
+
+
+def run(repo, rep, tier):  # noqa: F811 -- round-7 remedies / borrowings
+    _run_before_r7a(repo, rep, tier)
+    if getattr(rep, "borrowed", False):
+        return
+    from ..core import round7 as _r7
+    _r7.root_pack_specs_carry_no_copy(repo, rep, "R18.10")
+
+
+_ADD_R7A = " R18.10: every root ValueSpec handed to PackerRegistry.get (dataclass field, codec shape) passes no_copy_collections=get_dialect_or_config_option('no_copy_collections', ()); nested positions inherit it through spec.copy."
+EXPLANATION += _ADD_R7A
+LEVEL_TEXT += _ADD_R7A
